@@ -21,7 +21,7 @@ def cfg_hook(rng, cfg, fam, i):
 
 def gen_cases(tier, seed):
     fams = ["cpu-mix", "cpu-mix", "exact-dag", "alias-stress", "exact-chain", "approx-tail", "stripe-stress", "lut-stress", "cpu-mix"]
-    return campaign.gen_cases(tier, seed, 12, 420, 10000, families=fams, cfg_hook=cfg_hook, extra=[("shape-ops", 24, 500), ("approx-tail2", 12, 300), ("grouped-conv", 8, 200)])
+    return campaign.gen_cases(tier, seed, 12, 420, 10000, families=fams, cfg_hook=cfg_hook, extra=[("shape-ops", 24, 500), ("approx-tail2", 12, 300), ("grouped-conv", 8, 200), ("lstm", 24, 400)])
 
 
 def parse_reports(c):
@@ -146,6 +146,9 @@ def check(c, viol, counters):
             for o, e, (d, u), i in ext:
                 if i in n.outputs:
                     continue
+                if i in n.inputs and getattr(sg.tensors[i], "is_variable", False):
+                    counters["state_operands_of_npu_ops"] = counters.get("state_operands_of_npu_ops", 0) + 1
+                    continue  # the operator's own persistent state (LSTM output / cell state): updating it is what the operator does
                 if d < k < u:  # live across this custom operator
                     counters["live_across_checks"] += 1
                     hit = footprint.intersects(w, np.array([[o, e]], dtype=np.int64))
